@@ -331,6 +331,17 @@ def standard_proof_phase(ctx, gen_files_used=()):
     elif a['closed'] != len(a['theorems']) or a['axioms']:
         ctx.broken.append('theorems depending on axioms: %s' % a['axioms'])
         ok = False
+    if ok and ctx.thorough:
+        # independent re-check of the compiled property files and everything they depend on
+        mods = ' '.join('SV.' + f[:-2].replace('/', '.') for f in a.get('files', []))
+        with Lock():
+            rc, out = sh('coqchk -silent -o -Q . SV %s' % mods, timeout=3000, cwd=COQ)
+        summary = out[out.find('CONTEXT SUMMARY'):] if 'CONTEXT SUMMARY' in out else out[-800:]
+        ctx.extra['coqchk'] = {'rc': rc, 'summary': summary.strip()[:1500]}
+        if rc != 0 or '* Axioms: <none>' not in summary.replace('\n  ', ' '):
+            if rc != 0 or 'Axioms: <none>' not in summary:
+                ctx.broken.append('coqchk does not accept Props/%s (rc %s) or reports axioms' % (ctx.pid, rc))
+                ok = False
     return ok
 
 
